@@ -460,13 +460,36 @@ where
     }
 }
 
+const UNWIND: &str = "ka-unwind";
+
 /// Drop one object, logging DropStart / DropEnd; a panic of the code under test is data (returned).
 fn timed_drop<E: KaEntry>(k: &str, i: usize, o: Obj<E>) -> Option<String>
 where
     SnapSink: EntrySink<RootMetric<E>>,
 {
-    trace::ev(json!({"ev":"DropStart","k":k,"i":i}));
-    let r = util::catch(move || drop(o));
+    timed_drop_how(k, i, o, false)
+}
+
+/// `unwind`: the object is dropped by the unwinding of a panic of the thread that holds it (the
+/// panic starts after the last mutation and is caught right here), not by an ordinary `drop`.
+fn timed_drop_how<E: KaEntry>(k: &str, i: usize, o: Obj<E>, unwind: bool) -> Option<String>
+where
+    SnapSink: EntrySink<RootMetric<E>>,
+{
+    trace::ev(json!({"ev":"DropStart","k":k,"i":i,"unwind":unwind}));
+    let r = if unwind {
+        util::catch(move || {
+            let _held = o;
+            // no panic hook, but `std::thread::panicking()` is true while `_held` is dropped
+            std::panic::resume_unwind(Box::new(UNWIND));
+        })
+    } else {
+        util::catch(move || drop(o))
+    };
+    let r = match r {
+        Err(m) if m == UNWIND => Ok(()),
+        x => x,
+    };
     if let Err(m) = &r {
         trace::ev(json!({"ev":"Panic","k":k,"i":i,"msg":m}));
     }
@@ -493,6 +516,9 @@ where
     let init = steps[0].as_array().unwrap();
     let mut w: World<E> = World::new(b["delay"].as_bool().unwrap_or(false));
     let mut obs: Vec<Value> = Vec::new();
+    // operations (by index) whose drop is performed by unwinding; in a spawned thread or in place
+    let unwind_steps: Vec<u64> = b["unwind"].as_array().map(|a| a.iter().filter_map(|x| x.as_u64()).collect()).unwrap_or_default();
+    let in_thread = b["unwind_thread"].as_bool().unwrap_or(false);
     let r = util::catch(std::panic::AssertUnwindSafe(|| {
         w.build(
             init[1].as_u64().unwrap() as usize,
@@ -551,9 +577,17 @@ where
                     };
                     true
                 }
-                "Drop" => match w.take(k, i) {
+                "Drop" | "DropUnwind" => match w.take(k, i) {
                     Some(o) => {
-                        if let Some(m) = timed_drop(k, i, o) {
+                        let unwind = op == "DropUnwind" || unwind_steps.contains(&(obs.len() as u64));
+                        let r = if unwind && in_thread {
+                            // the panicking owner of the object is another thread, which is joined
+                            let kk = k.to_string();
+                            std::thread::spawn(move || timed_drop_how(&kk, i, o, true)).join().unwrap_or(Some("thread".into()))
+                        } else {
+                            timed_drop_how(k, i, o, unwind)
+                        };
+                        if let Some(m) = r {
                             res = json!({"panic": m});
                         }
                         true
@@ -589,6 +623,30 @@ fn cmd_seq(a: &HashMap<String, String>) {
 // ------------------------------------------------------------------------------------------
 // R-scheduled
 // ------------------------------------------------------------------------------------------
+
+/// Runs `on_expiry` once if `stop` is not called within the budget.
+struct Watchdog {
+    tx: std::sync::mpsc::Sender<()>,
+    h: std::thread::JoinHandle<bool>,
+}
+impl Watchdog {
+    fn start(budget: Duration, on_expiry: impl FnOnce() + Send + 'static) -> Self {
+        let (tx, rx) = std::sync::mpsc::channel::<()>();
+        let h = std::thread::spawn(move || match rx.recv_timeout(budget) {
+            Err(std::sync::mpsc::RecvTimeoutError::Timeout) => {
+                on_expiry();
+                true
+            }
+            _ => false,
+        });
+        Watchdog { tx, h }
+    }
+    /// true if it fired
+    fn stop(self) -> bool {
+        let _ = self.tx.send(());
+        self.h.join().unwrap_or(false)
+    }
+}
 
 const STEP_TIMEOUT: Duration = Duration::from_millis(500);
 const GATING: &[&str] = &[
@@ -694,6 +752,12 @@ where
         &modes_of(&init[4]),
     );
     let mut st = Stepper { ctrl: ctrl.clone(), own_sg: HashSet::new(), drift: Vec::new() };
+    let unwind_steps: Vec<u64> = sc["unwind"].as_array().map(|a| a.iter().filter_map(|x| x.as_u64()).collect()).unwrap_or_default();
+    // Operations of the controlling thread (new_guard, open, ...) run real code: if that code
+    // blocks on something a gated actor holds (it does not on the unchanged tree), the replay
+    // would hang. The watchdog then releases every actor; the rest of the schedule is executed
+    // free-running and the verdict still comes from the recorded trace.
+    let watchdog = Watchdog::start(Duration::from_secs(2), || sched::controller().free_run());
     let mut threads: Vec<std::thread::JoinHandle<()>> = Vec::new();
     let mut executed = 0usize;
     for (n, s) in steps[1..].iter().enumerate() {
@@ -728,10 +792,11 @@ where
                         }
                         let kk = k.to_string();
                         let tag = tag_of(k, i);
+                        let unwind = unwind_steps.contains(&((n + 1) as u64));
                         threads.push(std::thread::spawn(move || {
                             let _g = sched::ActorGuard::new(a);
                             TAG.with(|t| t.set(tag));
-                            let _ = timed_drop(&kk, i, o);
+                            let _ = timed_drop_how(&kk, i, o, unwind);
                         }));
                         let mut arr = st.arrive(a);
                         if action == "SSenddiscard" && matches!(arr, Arrival::At("ka.sg_sent", _)) {
@@ -786,6 +851,9 @@ where
     for t in threads {
         let _ = t.join();
     }
+    if watchdog.stop() {
+        st.drift.push(json!({"why": "watchdog: an operation of the controlling thread blocked on a gated actor; schedule released"}));
+    }
     let real_mid = snaps();
     trace::evi("Quiesce", &[]);
     // then drop what is left (sequentially, in a fixed order) and look again
@@ -810,9 +878,9 @@ where
         let k = op.get(1).and_then(|v| v.as_str()).unwrap_or("");
         let i = op.get(2).and_then(|v| v.as_u64()).unwrap_or(0) as usize;
         let r = util::catch(std::panic::AssertUnwindSafe(|| match name {
-            "drop" => {
+            "drop" | "dropu" => {
                 if let Some(o) = w.take(k, i) {
-                    let _ = timed_drop(k, i, o);
+                    let _ = timed_drop_how(k, i, o, name == "dropu");
                 }
             }
             "mut" => {
@@ -897,6 +965,11 @@ where
         }));
     }
     barrier.wait();
+    // a scenario takes well under a millisecond; a deadlock of the code under test must not hang the check
+    let watchdog = Watchdog::start(Duration::from_secs(30), move || {
+        eprintln!("HANG scenario {id}: threads did not finish within 30 s");
+        std::process::exit(3);
+    });
     for j in joins {
         match j.join() {
             Ok(local) => {
@@ -909,6 +982,7 @@ where
             }
         }
     }
+    watchdog.stop();
     ctrl.free_run();
     trace::evi("Quiesce", &[]);
     w.drop_rest();
